@@ -36,7 +36,12 @@ not come from pygom, scipy.stats log-densities, finite differences of those) FOR
   * every returned array is kept, and compared at the end of the script with a copy taken when it was returned
     (a returned view of an internal buffer that a later call overwrites),
   * every array the caller passed in (theta, y, t, x0, weights, spread) is compared at the end with a copy
-    taken before the call.
+    taken before the call.  The properties speak about RETURNED VALUES only, so a write into a caller's array is by
+    itself not a violation: it is tagged (`side-effect:...`) and reported as a MISMATCH with the pure Lean model
+    (whose inputs cannot change).  Its consequences are judged: the x0 / grid containers handed to the first loss
+    object are handed, as the same Python objects, to every later loss object of the case (as a user who keeps
+    his arrays around does), while the specification gives the later object the ORIGINAL values - if pygom wrote
+    into them the later object returns wrong values and that is the violation.
 Input forms: list / tuple / float ndarray / list of numpy scalars / list of Python ints / int ndarray for every
 argument whose values are integral in the case, a one-element `target_param` / `target_state` / `state_name` given
 as a bare string, t0 != 0 given as float, int or numpy scalar.  A form the unchanged pygom rejects with an error at
@@ -239,7 +244,10 @@ def gen_history(r, index, e1_pool, family=None):
             models.append({"theta": list(U)})
         obs2 = r.sample(s["states"], r.randint(1, min(2, len(s["states"]))))
         specs.append(_obj_spec(r, s, other, r.randrange(4), obs=obs2))
-        ops += [C(0, e1, A, X), {"op": "new", "obj": 1}, C(0, e1, A, X, none=True), C(1, e1, A, Y), C(0, e1, A, X, none=True), C(1, e2, B, Y), C(0, e1, A, X, none=True),
+        if r.random() < 0.7:                         # the user hands the same x0 / grid containers to both objects
+            specs[1]["forms"]["x0"], specs[1]["forms"]["t"] = specs[0]["forms"]["x0"], specs[0]["forms"]["t"]
+        ops += [C(0, e1, A, X)] + ([C(0, r.choice(IV_FNS), B, Y)] if r.random() < 0.5 else [])
+        ops += [{"op": "new", "obj": 1}, C(0, e1, A, X, none=True), C(1, e1, A, Y), C(0, e1, A, X, none=True), C(1, e2, B, Y), C(0, e1, A, X, none=True),
                 C(1, e2, B, Y, none=True), C(0, e1, A, X), C(1, rnd_fn(), U, X), C(0, rnd_fn(), A, Y), C(1, e2, B, Y, none=True),
                 C(0, e1, A, X, none=True)]
         ops += random_ops(r.randint(0, 3), [0, 1])
@@ -321,8 +329,9 @@ def layout_name(spec):
     return {(False, False): "all", (True, False): "tp", (False, True): "ts", (True, True): "tp+ts"}[(spec["tp"] is not None, spec["ts"] is not None)]
 
 
-def build_object(case, k, model, ctx, keep):
-    """the real loss object for objects[k]; `keep` collects (label, array passed in, copy) for the caller's-array check"""
+def build_object(case, k, model, ctx, keep, shared):
+    """the real loss object for objects[k]; `keep` collects (label, array passed in, copy) for the caller's-array check;
+    `shared`: containers already handed to an earlier object of the case, by (argument, form) - handed over again"""
     s, spec = case["setup"], case["objects"][k]
     d = ctx.prepare(k)
     f = spec["forms"]
@@ -330,8 +339,8 @@ def build_object(case, k, model, ctx, keep):
     theta0 = conv([case["models"][spec["model"]]["theta"][s["params"].index(k_)] for k_ in fp], f["theta0"])
     y = d["y"][:, 0].tolist() if d["p"] == 1 else d["y"].tolist()
     y = conv(y, f["y"])
-    x0 = conv(list(s["x0"]), f["x0"])
-    t = conv(list(s["times"]), f["t"])
+    x0 = shared.setdefault(("x0", f["x0"]), conv(list(s["x0"]), f["x0"]))
+    t = shared.setdefault(("t", f["t"]), conv(list(s["times"]), f["t"]))
     t0 = {"float": float, "int": int, "npscalar": np.float64}[f["t0"]](s["t0"])
     one = lambda names: names[0] if (f["names"] == "str" and len(names) == 1) else list(names)
     kw = {}
@@ -344,7 +353,7 @@ def build_object(case, k, model, ctx, keep):
     if spec["ts"] is not None:
         kw["target_state"] = one(spec["ts"])
     for label, a in (("theta0", theta0), ("y", y), ("x0", x0), ("t", t), ("weights", kw.get("state_weight")), ("spread", kw.get(LC.SPREAD_KW.get(spec["cls"], "-")))):
-        if isinstance(a, (np.ndarray, list)):
+        if isinstance(a, (np.ndarray, list)) and not any(a is e[2] for e in keep):
             keep.append(("%s of object %d" % (label, k), label, a, copy.deepcopy(a)))
     return LC.loss_class(spec["cls"])(theta0, model, x0, t0, t, y, one(spec["obs"]), **kw)
 
@@ -381,7 +390,7 @@ def execute(case, judge, judged_fns):
     params, states = s["params"], s["states"]
     mref = [dict(zip(params, m["theta"])) for m in case["models"]]
     objs, oref = {}, {}
-    keep_in, keep_out, first = [], [], {}
+    keep_in, keep_out, first, shared = [], [], {}, {}
     judged = 0
     dead = set()
 
@@ -440,7 +449,7 @@ def execute(case, judge, judged_fns):
                 dead.add(k)
                 continue
             try:
-                objs[k] = build_object(case, k, models[spec["model"]], ctx, keep_in)
+                objs[k] = build_object(case, k, models[spec["model"]], ctx, keep_in, shared)
             except Exception as exc:
                 # a form refused at construction is not judged (STRENGTHEN_GUIDE: tagged); with every argument in its
                 # default float form a refusal is a violation
@@ -508,8 +517,9 @@ def execute(case, judge, judged_fns):
         except Exception as exc:
             exc_ = exc
         if passed is not None and not _same(passed, passed_copy):
-            viol.append({"what": "%s(theta) wrote to the argument array of its caller" % fn, "signature": sig(fn, spec, "argument-modified"),
-                         "detail": "op %d: passed %r, afterwards %r" % (i, passed_copy, passed)})
+            # a side effect, not a wrong returned value: tag + mismatch with the pure model (see the module docstring)
+            tags.append("side-effect:argument-modified:" + fn)
+            mism.append({"what": "side-effect:argument-modified", "detail": "%s wrote to the argument array of its caller; op %d: passed %r, afterwards %r" % (fn, i, passed_copy, passed)})
         if fn not in judged_fns:
             continue
         d = ctx.prepare(k)
@@ -559,7 +569,6 @@ def execute(case, judge, judged_fns):
                          "detail": "returned %s now %s" % (cp.ravel().tolist()[:12], arr.ravel().tolist()[:12])})
     for label, short, arr, cp in keep_in:
         if not _same(arr, cp):
-            k = int(label.rsplit(" ", 1)[1])
-            viol.append({"what": "the caller's %s was modified" % label, "signature": sig("caller-array", case["objects"][k], "modified:" + short),
-                         "detail": "before %r after %r" % (cp, arr)})
+            tags.append("side-effect:caller-array-modified:" + short)
+            mism.append({"what": "side-effect:caller-array-modified", "detail": "the caller's %s was modified: before %r after %r" % (label, cp, arr)})
     return {"nontrivial": judged >= 2, "violations": viol, "mismatches": mism, "tags": sorted(set(tags)), "judged": judged}
